@@ -14,7 +14,7 @@ Open Scope nat_scope.
 
 (* Registration installs exactly the expected hooks (walk of _observe.py = specification). *)
 Theorem registration_hooks_expected :
-  forall h k g x, Permutation (add_order h k g x) (expected h k g x).
+  forall t h k g x, Permutation (add_order t h k g x) (expected t h k g x).
 Proof. exact add_order_expected. Qed.
 Print Assumptions registration_hooks_expected.
 
@@ -38,13 +38,13 @@ Print Assumptions hooks_are_expected_from_scratch.
    edge-acyclic history of the model, of any length, from the empty pool state. *)
 Theorem law_holds_on_every_acyclic_history :
   forall npool ops, hyps (init npool) ops = true ->
-    law_hist 0%Z (fun _ _ => []) [] (run (init npool) ops) = [].
+    law_hist 0%Z init_traits (fun _ _ => []) [] (run (init npool) ops) = [].
 Proof. intros npool ops H. apply (law_hist_model ops (init npool) 0%Z (inv_init npool) H). Qed.
 Print Assumptions law_holds_on_every_acyclic_history.
 
 Theorem law_holds_from_any_consistent_state :
   forall ops st i, inv st -> hyps st ops = true ->
-    law_hist i (st_heap st) (st_regs st) (run st ops) = [].
+    law_hist i (st_traits st) (st_heap st) (st_regs st) (run st ops) = [].
 Proof. exact law_hist_model. Qed.
 Print Assumptions law_holds_from_any_consistent_state.
 
@@ -61,7 +61,7 @@ Print Assumptions called_once_iff_reachable.
 (* An object no live expression reaches (detached, or reached only through ':' links) is never called. *)
 Theorem detached_never_called :
   forall st o x f, inv st -> op_hyp st o = true -> notified st o = Some (x, f) ->
-    (forall k g, In (k, g) (st_regs st) -> matched (st_heap st) g (snd k) x f = false) ->
+    (forall k g, In (k, g) (st_regs st) -> matched (st_traits st) (st_heap st) g (snd k) x f = false) ->
     ob_calls (snd (step st o)) = [].
 Proof.
   intros st o x f I Hy N Hno. pose proof (step_spec st o I Hy) as S. unfold step_ok in S.
@@ -82,28 +82,41 @@ Print Assumptions no_mutation_raises.
    count of a user notifier, the number of equal maintainers) is the number of paths that reach it. *)
 Theorem duplicates_counted :
   forall st (eq_dec : forall a b : oid * fname * kind, {a = b} + {a <> b}) hk,
-    inv st -> count_occ eq_dec (st_hooks st) hk = count_occ eq_dec (expected_all (st_heap st) (st_regs st)) hk.
+    inv st -> count_occ eq_dec (st_hooks st) hk
+              = count_occ eq_dec (expected_all (st_traits st) (st_heap st) (st_regs st)) hk.
 Proof. exact refcount_is_multiplicity. Qed.
 Print Assumptions duplicates_counted.
 
 (* The substitution theorem behind the step case (kept visible). *)
 Theorem expected_substitution :
-  forall h k o fo news g x, acyc_on h o fo news g x ->
+  forall t h k o fo news g x, acyc_on t h o fo news g x ->
     Permutation
-      (expected (upd h o fo news) k g x ++ flat_map (fun c => sumexp h k [c] (h o fo)) (occ h g x o fo))
-      (expected h k g x ++ flat_map (fun c => sumexp h k [c] news) (occ h g x o fo)).
+      (expected t (upd h o fo news) k g x ++ flat_map (fun c => sumexp t h k [c] (h o fo)) (occ t h g x o fo))
+      (expected t h k g x ++ flat_map (fun c => sumexp t h k [c] news) (occ t h g x o fo)).
 Proof. exact expected_subst. Qed.
 Print Assumptions expected_substitution.
+
+(* The trait-addition theorem behind add_trait: what the matching trait_added maintainers add is
+   exactly what [expected] gains when object x0 acquires trait f0. *)
+Theorem expected_trait_addition :
+  forall t h rs x0 f0 H,
+    t x0 f0 = false -> h x0 f0 = [] -> forallb (fun r : reg => wf_dyn f0 (snd r)) rs = true ->
+    Permutation H (expected_all t h rs) ->
+    Permutation (H ++ flat_map (fun kg => own_for (fst kg) x0 f0 (snd kg)) (added_on H x0))
+                (expected_all (add_trait t x0 f0) h rs).
+Proof. exact inv_add_trait_all. Qed.
+Print Assumptions expected_trait_addition.
 
 (* F14: without edge-acyclicity the property is false of the faithful model.  o.f = o;
    o.observe(h, "f.f.value"); o.f = p; p.f = o; p.value = 9: nothing raises, the hypothesis fails at
    the third operation, and the last probe calls the handler for (p, value), which is not matched. *)
 Definition f14_history : list op :=
-  [SetRef 0 1 [0]; Observe 0 0 (G 1 true [G 1 true [G 0 true []]]); SetRef 0 1 [1]; SetRef 1 1 [0]; Probe 1].
+  [SetRef 0 1 [0]; Observe 0 0 (G [1] true true [G [1] true true [G [0] true true []]]);
+   SetRef 0 1 [1]; SetRef 1 1 [0]; Probe 1].
 Theorem cyclic_refuted :
   exists ops, Forall (fun p : op * obs => ob_out (snd p) = Ok) (run (init 2) ops)
               /\ hyps (init 2) ops = false
-              /\ law_hist 0%Z (fun _ _ => []) [] (run (init 2) ops) = [402%Z]
+              /\ law_hist 0%Z init_traits (fun _ _ => []) [] (run (init 2) ops) = [402%Z]
               /\ ~ inv (final (init 2) ops).
 Proof.
   exists f14_history. split; [repeat constructor|]. split; [vm_compute; reflexivity|].
@@ -116,23 +129,27 @@ Print Assumptions cyclic_refuted.
    o.kids.append(p); o.kids[0] = o: the mutation raises NotifierNotFound in the model as in the code. *)
 Definition f14_list_history : list op :=
   [SetCont 0 3 [] true; SetCont 1 3 [] true;
-   Observe 0 0 (G 3 true [G 6 true [G 3 true [G 6 true [G 0 true []]]]]);
+   Observe 0 0 (G [3] true true [G [6] true false [G [3] true true [G [6] true false [G [0] true true []]]]]);
    Splice 2 6 0 0 [1]; Splice 2 6 0 1 [0]].
 Theorem cyclic_list_refuted :
   exists ops, hyps (init 2) ops = false
               /\ map (fun p : op * obs => ob_out (snd p)) (run (init 2) ops) = [Ok; Ok; Ok; Ok; Raise NotifierNotFound]
-              /\ law_hist 0%Z (fun _ _ => []) [] (run (init 2) ops) = [406%Z].
+              /\ law_hist 0%Z init_traits (fun _ _ => []) [] (run (init 2) ops) = [406%Z].
 Proof. exists f14_list_history. vm_compute. repeat split; reflexivity. Qed.
 Print Assumptions cyclic_list_refuted.
 
 (* Non-vacuity: a history over a DAG with a list holding the same object twice, an equal list
-   re-assigned, a default materialised late and a quiet link meets the hypotheses, and calls happen. *)
+   re-assigned, a default materialised late, a quiet link, a filter node (f and g), an optional observer
+   of a trait added later with add_trait, and an anytrait leaf meets the hypotheses, and calls happen. *)
 Example history_nontrivial :
-  let g := G 3 true [G 6 true [G 1 false [G 0 true []]; G 0 true []]] in
+  let g := G [3] true true [G [6] true false [G [1] false true [G [0] true true []]; G [0] true true []]] in
+  let d := G [1; 2] true true [G [12] true true [G [0] true true []]] in
   let ops := [SetRef 1 1 [2]; SetCont 0 3 [1; 2; 1] false; Observe 0 0 g; Probe 1; Probe 2;
               Splice 3 6 0 1 []; Probe 1; SetCont 0 3 [1] false; SetCont 0 3 [1] false; Probe 0;
-              Observe 1 1 (G 5 true [G 8 true []]); Touch 1 5; Splice 6 8 0 0 [2]; Unobserve 0 0 g; Probe 2] in
+              Observe 1 1 (G [5] true true [G [8] true false []]); Touch 1 5; Splice 6 8 0 0 [2]; Unobserve 0 0 g; Probe 2;
+              Observe 0 1 d; Observe 1 2 (G [0; 1; 2; 10; 12] true true []); AddTrait 2 12; SetRef 2 12 [0]; Probe 0] in
   hyps (init 3) ops = true
-  /\ map (fun p => length (ob_calls (snd p))) (run (init 3) ops) = [0; 0; 0; 1; 1; 1; 1; 1; 0; 0; 0; 0; 1; 0; 0]
-  /\ law_hist 0%Z (fun _ _ => []) [] (run (init 3) ops) = [].
+  /\ map (fun p => length (ob_calls (snd p))) (run (init 3) ops)
+     = [0; 0; 0; 1; 1; 1; 1; 1; 0; 0; 0; 0; 1; 0; 0; 0; 0; 1; 2; 1]
+  /\ law_hist 0%Z init_traits (fun _ _ => []) [] (run (init 3) ops) = [].
 Proof. vm_compute. repeat split; reflexivity. Qed.
